@@ -546,6 +546,10 @@ def check(ctx):
             able = f['_part'] == 'N' and f['_output'] == 'N' and f['_is_shut_down'] == 'F'
             if able and f['_waiting_for_part_since'] != 'S':
                 return False
+            # and conversely: a device that holds a part is not stamped (a stamp set while holding survives the departure of the part
+            # and then outranks devices that have been idle longer) -- inductive since the repair of F9
+            if f['_waiting_for_part_since'] == 'S' and (dv.full(f['_part']) or dv.full(f['_output'])):
+                return False
             return dv.slot_invariant(c.name, f)
 
         def stamp(an, n, before, after, N=N):
@@ -555,6 +559,11 @@ def check(ctx):
                 st = after.with_field('_waiting_for_part_since', 'S')
                 if not N.norm(a.value, FrameEnv(n.frame)).is_({'NOW': 1}):
                     st = st.with_flag('STAMP-NOT-NOW')
+                # the converse, for the stamps the device writes through its own operations: it is stamped only while both slots are
+                # empty (a device that still holds a blocked finished part and gets stamped keeps that early stamp when the part leaves,
+                # and is then preferred over a sibling that has really been idle longer)
+                if dv.full(before.fields.get('_part')) or dv.full(before.fields.get('_output')):
+                    st = st.with_flag('STAMP-WHILE-HOLDING')
                 return st
             return after
         dom = dv.base_domain(P, c)
@@ -575,10 +584,17 @@ def check(ctx):
                 if 'STAMP-NOT-NOW' in st.flags:
                     ln = dv.last_node(res, g.exit, st, lambda n: n.kind == 'stmt' and '_waiting_for_part_since' in n.src())
                     o.fail(P, f'{c.name}.{e}', ln.ast if ln else e, 'the waiting-since stamp is not the current time', node=ln, file=c.mod.path)
+                if 'STAMP-WHILE-HOLDING' in st.flags:
+                    ln = dv.last_node(res, g.exit, st, lambda n: n.kind == 'stmt' and '_waiting_for_part_since' in n.src())
+                    o.fail(P, f'{c.name}.{e}', ln.ast if ln else e, f'{e} stamps the device as waiting for a part while it still holds one (entry {s0.show()}): it keeps the early stamp '
+                           'when the part leaves and is then ranked ahead of a parallel device that has been idle longer', node=ln, file=c.mod.path, path=res.path_lines(g.exit, st))
                 if not I(f):
                     ln = dv.last_node(res, g.exit, st, lambda n: n.kind in ('stmt', 'cond', 'return') and n.ast is not None)
+                    holding = f['_waiting_for_part_since'] == 'S' and (dv.full(f['_part']) or dv.full(f['_output']))
                     o.fail(P, f'{c.name}.{e}', ln.ast if ln else e,
-                           f'the device can take a part but its waiting-since stamp is not set, so it is ranked last among parallel candidates (entry {s0.show()} -> exit {st.show()})',
+                           (f'the device holds a part but carries a waiting-since stamp: the stamp survives the departure of the part and the device is then ranked ahead of '
+                            f'parallel devices that have been idle longer (entry {s0.show()} -> exit {st.show()})' if holding else
+                            f'the device can take a part but its waiting-since stamp is not set, so it is ranked last among parallel candidates (entry {s0.show()} -> exit {st.show()})'),
                            node=ln, file=c.mod.path, path=res.path_lines(g.exit, st))
                 if dv.full(f['_part']) and not dv.full(s0.fields['_part']) and f['_waiting_for_part_since'] != 'N':
                     ln = dv.last_node(res, g.exit, st, lambda n: n.kind == 'stmt' and '_part' in n.src())
